@@ -1,4 +1,542 @@
 /- C01 — helper lemmas for Props.lean -/
-import YouVerif.C01.Model
+import YouVerif.C01.Spec
 namespace YouVerif.C01
+
+/-! ### sorting -/
+
+theorem mem_insertDesc {v x : Val} {l : List Val} : x ∈ insertDesc v l ↔ x = v ∨ x ∈ l := by
+  induction l with
+  | nil => simp [insertDesc]
+  | cons w ws ih =>
+    unfold insertDesc
+    split
+    · simp
+    · simp [ih]; constructor
+      · rintro (h | h | h) <;> simp [h]
+      · rintro (h | h | h) <;> simp [h]
+
+theorem mem_sortDesc {x : Val} {l : List Val} : x ∈ sortDesc l ↔ x ∈ l := by
+  induction l with
+  | nil => simp [sortDesc]
+  | cons v vs ih => simp [sortDesc, mem_insertDesc, ih]
+
+theorem mem_vals_of_sorted_get {lb : LookBack} {i : Nat} {v : Val} (h : lb.sorted[i]? = some v) : v ∈ lb.vals := by
+  have : v ∈ lb.sorted := List.mem_of_getElem? h
+  exact mem_sortDesc.1 this
+
+/-! ### aggregate check -/
+
+theorem permB_mem {xs ys : List SigAtom} (h : permB xs ys = true) : ∀ x ∈ xs, x ∈ ys := by
+  induction xs generalizing ys with
+  | nil => intro x hx; cases hx
+  | cons a as ih =>
+    simp only [permB, Bool.and_eq_true] at h
+    intro x hx
+    cases hx with
+    | head => exact List.contains_iff_mem.1 h.1 |> fun m => by simpa using m
+    | tail _ hx' => exact List.mem_of_mem_erase (ih h.2 x hx')
+
+theorem permB_length {xs ys : List SigAtom} (h : permB xs ys = true) : xs.length = ys.length := by
+  induction xs generalizing ys with
+  | nil => simp [permB] at h; simp [h]
+  | cons a as ih =>
+    simp only [permB, Bool.and_eq_true] at h
+    have hm : a ∈ ys := by simpa using h.1
+    have := ih h.2
+    rw [List.length_erase_of_mem hm] at this
+    have hp : 0 < ys.length := List.length_pos_of_mem hm
+    simp; omega
+
+theorem verifyAgg_true {ck : Checks} {pubs : List Nat} {pl : Payload} {agg : List SigAtom}
+    (h : verifyAgg ck pubs pl agg = some true) : ∀ k ∈ pubs, (k, pl) ∈ agg := by
+  unfold verifyAgg at h
+  split at h
+  · split at h <;> simp at h
+  · simp only [Option.some.injEq] at h
+    intro k hk
+    exact permB_mem h (k, pl) (List.mem_map.2 ⟨k, hk, rfl⟩)
+
+/-- an accepted aggregate contains nothing but signatures over this very payload -/
+theorem verifyAgg_only_payload {ck : Checks} {pubs : List Nat} {pl : Payload} {agg : List SigAtom}
+    (h : verifyAgg ck pubs pl agg = some true) : ∀ a ∈ agg, a.2 = pl := by
+  unfold verifyAgg at h
+  split at h
+  · split at h <;> simp at h
+  · simp only [Option.some.injEq] at h
+    -- a permutation of a list all of whose payloads are `pl`
+    have key : ∀ (xs ys : List SigAtom), permB xs ys = true → (∀ x ∈ xs, x.2 = pl) → ∀ y ∈ ys, y.2 = pl := by
+      intro xs
+      induction xs with
+      | nil => intro ys h _ y hy; simp [permB] at h; simp [h] at hy
+      | cons a as ih =>
+        intro ys h hx y hy
+        simp only [permB, Bool.and_eq_true] at h
+        by_cases hya : y = a
+        · exact hya ▸ hx a (List.mem_cons_self)
+        · have : y ∈ ys.erase a := (List.mem_erase_of_ne hya).2 hy
+          exact ih _ h.2 (fun x hx' => hx x (List.mem_cons_of_mem _ hx')) y this
+    exact key _ _ h (by intro x hx; obtain ⟨k, _, rfl⟩ := List.mem_map.1 hx; rfl)
+
+/-! ### the vote loop, BLS branch, with the checks that exist now -/
+
+/-- loop invariant: the accumulator state is explained by a list of valid, distinct, entitled ballots -/
+structure Inv (C : Crypto) (cd : CD) (lb : LookBack) (step : Nat) (all : List Vote) (st : VState) (S : List (Val × Vote)) : Prop where
+  sta : st.sta = S.map (·.1.addr)
+  distinct : (S.map (·.1.addr)).Nodup
+  count : st.count = weight S % U32
+  member : ∀ p ∈ S, lb.sorted[p.2.idx]? = some p.1 ∧ p.1 ∈ lb.vals ∧ p.2 ∈ all
+  entitled : ∀ p ∈ S, Entitled p.1
+  cred : ∀ p ∈ S, CredOK C p.1 cd.seed step cd.payload.index p.2.proof p.2.votes cd.t lb.chamberStake
+  pubs : ∀ p ∈ S, ∃ bk, p.1.blsKey = some bk ∧ bk ∈ st.pubs
+
+theorem entitled_iff {v : Val} : entitled v = true ↔ Entitled v := by
+  simp [entitled, Entitled]
+
+theorem sortitionOK_true {C : Crypto} {key seed role index : Nat} {proof : Option VrfProof} {votes t stake total : Nat}
+    (h : sortitionOK C key seed role index proof votes t stake total = some true) :
+    ∃ hh j, proofToHash key seed role index proof = some hh ∧ C.ch hh stake t total = some j ∧ 0 < j ∧ u32 j = votes := by
+  unfold sortitionOK at h
+  split at h
+  · simp at h
+  · split at h
+    · simp at h
+    · rename_i hh hp
+      split at h
+      · simp at h
+      · rename_i j hj
+        simp only [Option.some.injEq, Bool.and_eq_true, decide_eq_true_eq] at h
+        exact ⟨hh, j, hp, hj, h.1, h.2⟩
+
+theorem weight_cons (p : Val × Vote) (S : List (Val × Vote)) : weight (p :: S) = p.2.votes + weight S := by
+  simp [weight]
+
+theorem stepBls_inv {C : Crypto} {cd : CD} {lb : LookBack} {step : Nat} {all : List Vote}
+    {st st' : VState} {S : List (Val × Vote)} {v : Vote}
+    (hinv : Inv C cd lb step all st S) (hv : v ∈ all)
+    (h : stepBls Checks.current C cd lb.sorted lb.chamberStake step st v = .cont st') :
+    ∃ S', Inv C cd lb step all st' S' := by
+  unfold stepBls at h
+  split at h
+  · cases h
+  · rename_i val hval
+    split at h
+    · cases h
+    · cases h
+    · rename_i bk mk hbk hmk
+      split at h
+      · cases h; exact ⟨S, hinv⟩
+      · rename_i hent
+        split at h
+        · cases h; exact ⟨S, hinv⟩
+        · rename_i hdup
+          unfold count1 at h
+          split at h
+          · cases h
+          · -- sortition failed: only the key list grows
+            cases h
+            refine ⟨S, ⟨hinv.sta, hinv.distinct, hinv.count, hinv.member, hinv.entitled, hinv.cred, ?_⟩⟩
+            intro p hp
+            obtain ⟨b, hb, hm⟩ := hinv.pubs p hp
+            exact ⟨b, hb, by simp [hm]⟩
+          · rename_i hs
+            cases h
+            obtain ⟨hh, j, hp, hj, hpos, hu⟩ := sortitionOK_true hs
+            have hent' : Entitled val := by
+              have : entitled val = true := by
+                simp [Checks.current] at hent; exact hent
+              exact entitled_iff.1 this
+            have hnot : val.addr ∉ S.map (·.1.addr) := by
+              rw [← hinv.sta]; simpa using hdup
+            refine ⟨(val, v) :: S, ⟨?_, ?_, ?_, ?_, ?_, ?_, ?_⟩⟩
+            · simp [hinv.sta]
+            · simp only [List.map_cons, List.nodup_cons]; exact ⟨hnot, hinv.distinct⟩
+            · show (st.count + v.votes) % U32 = weight ((val, v) :: S) % U32
+              rw [weight_cons, hinv.count, Nat.mod_add_mod, Nat.add_comm]
+            · intro p hp
+              cases hp with
+              | head => exact ⟨hval, mem_vals_of_sorted_get hval, hv⟩
+              | tail _ hp' => exact hinv.member p hp'
+            · intro p hp
+              cases hp with
+              | head => exact hent'
+              | tail _ hp' => exact hinv.entitled p hp'
+            · intro p hp
+              cases hp with
+              | head => exact ⟨mk, hh, j, hmk, hp, hj, hpos, hu⟩
+              | tail _ hp' => exact hinv.cred p hp'
+            · intro p hp
+              cases hp with
+              | head => exact ⟨bk, hbk, by simp⟩
+              | tail _ hp' =>
+                obtain ⟨b, hb, hm⟩ := hinv.pubs p hp'
+                exact ⟨b, hb, by simp [hm]⟩
+
+theorem loop_inv {C : Crypto} {cd : CD} {lb : LookBack} {step : Nat} {all : List Vote} :
+    ∀ (vs : List Vote) (st st' : VState) (S : List (Val × Vote)),
+      Inv C cd lb step all st S → (∀ v ∈ vs, v ∈ all) →
+      loop (stepBls Checks.current C cd lb.sorted lb.chamberStake step) vs st = .cont st' →
+      ∃ S', Inv C cd lb step all st' S' := by
+  intro vs
+  induction vs with
+  | nil => intro st st' S hinv _ h; simp [loop] at h; cases h; exact ⟨S, hinv⟩
+  | cons v vs ih =>
+    intro st st' S hinv hall h
+    simp only [loop] at h
+    split at h
+    · rename_i st1 hst1
+      obtain ⟨S1, hinv1⟩ := stepBls_inv hinv (hall v List.mem_cons_self) hst1
+      exact ih st1 st' S1 hinv1 (fun w hw => hall w (List.mem_cons_of_mem _ hw)) h
+    · cases h
+
+theorem inv_init (C : Crypto) (cd : CD) (lb : LookBack) (step : Nat) (all : List Vote) :
+    Inv C cd lb step all ⟨[], [], 0⟩ [] :=
+  ⟨rfl, by simp, by simp [weight], by simp, by simp, by simp, by simp⟩
+
+
+theorem quorum_le_of_over {count t : Nat} {isPos : Bool} (h : overThreshold count t isPos = true) : quorum isPos t ≤ count := by
+  simpa [overThreshold] using h
+
+/-- `verifyVotes` (BLS branch, current checks): acceptance ⇒ a valid ballot set with a quorum of seats -/
+theorem verifyVotes_sound_bls {C : Crypto} {cd : CD} {lb : LookBack} {votes : List Vote} {agg : Option (List SigAtom)}
+    {step : Nat} {isPos : Bool} (hb : cd.enableBls = true)
+    (h : verifyVotes Checks.current C cd lb votes agg step isPos = .ok) :
+    ∃ a S, agg = some a ∧ ValidBallots C lb cd.seed step cd.payload cd.t votes a S ∧
+      quorum isPos cd.t ≤ weight S ∧ (∀ x ∈ a, x.2 = cd.payload) := by
+  unfold verifyVotes at h
+  simp only [hb, Bool.true_and, if_true] at h
+  split at h
+  · cases h
+  · rename_i hagg
+    obtain ⟨a, rfl⟩ : ∃ a, agg = some a := by
+      cases agg with
+      | none => simp at hagg
+      | some a => exact ⟨a, rfl⟩
+    split at h
+    · rename_i r hr; -- the loop stopped with an error/crash: not ok … unless r = ok, which a stop never is
+      exact absurd h (by
+        intro hk; subst hk
+        -- a `stop` result is never `.ok`
+        have : ∀ (vs : List Vote) (st : VState),
+            loop (stepBls Checks.current C cd lb.sorted lb.chamberStake step) vs st ≠ .stop .ok := by
+          intro vs
+          induction vs with
+          | nil => intro st; simp [loop]
+          | cons v vs ih =>
+            intro st
+            simp only [loop]
+            split
+            · exact ih _
+            · rename_i r' hr'
+              intro hc; cases hc
+              -- stepBls never stops with ok
+              unfold stepBls at hr'
+              split at hr'
+              · cases hr'
+              · split at hr'
+                · cases hr'
+                · cases hr'
+                · split at hr'
+                  · cases hr'
+                  · split at hr'
+                    · cases hr'
+                    · unfold count1 at hr'
+                      split at hr' <;> cases hr'
+        exact this _ _ hr)
+    · rename_i st hst
+      obtain ⟨S, hinv⟩ := loop_inv votes _ st [] (inv_init C cd lb step votes) (fun v hv => hv) hst
+      split at h
+      · cases h
+      · rename_i hover
+        split at h
+        · cases h
+        · rename_i hv
+          have hq : quorum isPos cd.t ≤ st.count := quorum_le_of_over (by simpa using hover)
+          have hmem := verifyAgg_true hv
+          refine ⟨a, S, rfl, ⟨hinv.distinct, hinv.member, hinv.entitled, hinv.cred, ?_⟩, ?_, ?_⟩
+          · intro p hp
+            obtain ⟨bk, hbk, hm⟩ := hinv.pubs p hp
+            exact ⟨bk, hbk, by simpa using hmem bk hm⟩
+          · rw [hinv.count] at hq
+            exact Nat.le_trans hq (Nat.mod_le _ _)
+          · simpa using verifyAgg_only_payload hv
+        · cases h
+
+
+theorem priorityOK_true {C : Crypto} {k seed index : Nat} {c : Cons} {stake total : Nat}
+    (h : priorityOK C k seed index c stake total = some true) :
+    ∃ hh j, proofToHash k seed Gen.stepProposal index c.proof = some hh ∧ C.ch hh stake c.pT total = some j ∧
+      u32 j = c.subUsers ∧ C.prio hh j = c.priority := by
+  unfold priorityOK at h
+  split at h
+  · simp at h
+  · split at h
+    · simp at h
+    · rename_i hh hp
+      split at h
+      · simp at h
+      · rename_i j hj
+        simp only [Option.some.injEq, Bool.and_eq_true, decide_eq_true_eq] at h
+        exact ⟨hh, j, hp, hj, h.1, h.2⟩
+
+theorem byKey_some {lb : LookBack} {s : Signer} {v : Val} (h : lb.byKey s = some v) :
+    ∃ k, s = .key k ∧ v ∈ lb.vals ∧ v.mainKey = some k := by
+  cases s with
+  | bad => simp [LookBack.byKey] at h
+  | stranger => simp [LookBack.byKey] at h
+  | key k =>
+    simp only [LookBack.byKey] at h
+    refine ⟨k, rfl, List.mem_of_find?_eq_some h, ?_⟩
+    have := List.find?_some h
+    simpa using this
+
+/-- what `verifyMain` establishes before it looks at the certificate: the header-level acceptance facts -/
+structure Accepted (C : Crypto) (cp : Params) (seedHdr : LbHeader) (lb : LookBack) (h : Header) : Prop where
+  ex : ∃ seed ct c uc a S prop,
+    seedHdr.cons = some (seed, ct) ∧ h.cons = some c ∧ h.uc = some uc ∧ uc.agg = some a ∧
+    (c.pT = cp.pT ∧ c.vT = cp.vT ∧ c.cT = cp.cT) ∧
+    (prop ∈ lb.vals ∧ Entitled prop ∧ ProposerOK C prop seed c cp.pT lb.chamberStake) ∧
+    ValidBallots C lb seed Gen.stepPrecommit ⟨h.hash, c.round, uc.roundIndex⟩ cp.vT uc.votes a S ∧
+    quorum true cp.vT ≤ weight S ∧ (∀ x ∈ a, x.2 = ⟨h.hash, c.round, uc.roundIndex⟩)
+
+theorem verifyMain_sound {C : Crypto} {versions : Nat → Option Params} {cp : Params} {seedHdr : LbHeader}
+    {lb : LookBack} {certHdr : Option LbHeader} {certLb : LookBack} {h : Header} (hb : cp.enableBls = true)
+    (hok : verifyMain Checks.current C versions cp seedHdr lb certHdr certLb h = .ok) :
+    Accepted C cp seedHdr lb h := by
+  unfold verifyMain at hok
+  split at hok
+  · cases hok
+  · rename_i seed ct hseed
+    split at hok
+    · cases hok
+    · rename_i c hc
+      split at hok
+      · cases hok
+      · rename_i hthr
+        split at hok
+        · cases hok
+        · split at hok
+          · rename_i val k hval hsig
+            split at hok
+            · cases hok
+            · rename_i hent
+              split at hok
+              · cases hok
+              · cases hok
+              · rename_i hprio
+                split at hok
+                · cases hok
+                · rename_i uc huc
+                  -- the precommit verdict must be ok
+                  dsimp only at hok
+                  have hvv : verifyVotes Checks.current C
+                      { enableBls := cp.enableBls, seed := seed, payload := ⟨h.hash, c.round, uc.roundIndex⟩, t := c.vT }
+                      lb uc.votes uc.agg Gen.stepPrecommit true = .ok := by
+                    cases hvv' : verifyVotes Checks.current C
+                      { enableBls := cp.enableBls, seed := seed, payload := ⟨h.hash, c.round, uc.roundIndex⟩, t := c.vT }
+                      lb uc.votes uc.agg Gen.stepPrecommit true with
+                    | ok => rfl
+                    | err e => rw [hvv'] at hok; simp at hok
+                    | crash => rw [hvv'] at hok; simp at hok
+                  obtain ⟨a, S, hagg, hball, hq, hpl⟩ := verifyVotes_sound_bls (cd := { enableBls := cp.enableBls, seed := seed, payload := ⟨h.hash, c.round, uc.roundIndex⟩, t := c.vT }) hb hvv
+                  obtain ⟨hh, j, hp, hj, hu, hpr⟩ := priorityOK_true hprio
+                  obtain ⟨k', hk', hmem, hmk⟩ := byKey_some hval
+                  have hkk : k' = k := by rw [hsig] at hk'; cases hk'; rfl
+                  subst hkk
+                  have hT : c.pT = cp.pT ∧ c.vT = cp.vT ∧ c.cT = cp.cT := by
+                    simp [Checks.current] at hthr; exact ⟨hthr.1.1, hthr.1.2, hthr.2⟩
+                  have hE : entitled val = true ∧ 0 < c.subUsers := by
+                    simp [Checks.current] at hent; exact ⟨hent.1, Nat.pos_of_ne_zero hent.2⟩
+                  refine ⟨seed, ct, c, uc, a, S, val, hseed, hc, huc, hagg, hT, ⟨hmem, entitled_iff.1 hE.1, ?_⟩, ?_, ?_, hpl⟩
+                  · exact ⟨k', hh, j, hmk, hsig, hp, hT.1 ▸ hj, hE.2, hu, hpr⟩
+                  · simpa [hT.2.1] using hball
+                  · simpa [hT.2.1] using hq
+          · cases hok
+
+
+/-! ### which votes move the counter (BLS branch, current checks) -/
+
+/-- a vote that is processed without stopping either leaves the counter and the counted set alone, or it is
+the first vote of an entitled member with a valid credential for exactly the claimed seats -/
+theorem stepBls_cases {C : Crypto} {cd : CD} {vs : List Val} {total step : Nat} {st st' : VState} {v : Vote}
+    (h : stepBls Checks.current C cd vs total step st v = .cont st') :
+    (st'.sta = st.sta ∧ st'.count = st.count) ∨
+    (∃ val mk hh j, vs[v.idx]? = some val ∧ Entitled val ∧ val.addr ∉ st.sta ∧ val.mainKey = some mk ∧
+      proofToHash mk cd.seed step cd.payload.index v.proof = some hh ∧ C.ch hh val.stake cd.t total = some j ∧
+      0 < j ∧ u32 j = v.votes ∧ st'.sta = val.addr :: st.sta ∧ st'.count = (st.count + v.votes) % U32) := by
+  unfold stepBls at h
+  split at h
+  · cases h
+  · rename_i val hval
+    split at h
+    · cases h
+    · cases h
+    · rename_i bk mk hbk hmk
+      split at h
+      · cases h; exact .inl ⟨rfl, rfl⟩
+      · rename_i hent
+        split at h
+        · cases h; exact .inl ⟨rfl, rfl⟩
+        · rename_i hdup
+          unfold count1 at h
+          split at h
+          · cases h
+          · cases h; exact .inl ⟨rfl, rfl⟩
+          · rename_i hs
+            cases h
+            obtain ⟨hh, j, hp, hj, hpos, hu⟩ := sortitionOK_true hs
+            have hent' : Entitled val := entitled_iff.1 (by simp [Checks.current] at hent; exact hent)
+            exact .inr ⟨val, mk, hh, j, hval, hent', by simpa using hdup, hmk, hp, hj, hpos, hu, rfl, rfl⟩
+
+theorem proofToHash_some {key seed role index : Nat} {p : Option VrfProof} {h : Nat}
+    (hp : proofToHash key seed role index p = some h) :
+    ∃ q, p = some q ∧ q.key = key ∧ q.seed = seed ∧ q.role = role ∧ q.index = index ∧ q.hash = h := by
+  cases p with
+  | none => simp [proofToHash] at hp
+  | some q =>
+    simp only [proofToHash] at hp
+    split at hp
+    · rename_i hc; cases hp; exact ⟨q, rfl, hc.1, hc.2.1, hc.2.2.1, hc.2.2.2, rfl⟩
+    · cases hp
+
+/-! ### honest vote sets are accepted -/
+
+theorem permB_refl (xs : List SigAtom) : permB xs xs = true := by
+  induction xs with
+  | nil => simp [permB]
+  | cons a as ih => simp [permB, ih]
+
+/-- what honest voters and an honest packer produce (any order) -/
+structure HonestBallots (C : Crypto) (lb : LookBack) (seed step : Nat) (pl : Payload) (t : Nat)
+    (S : List (Val × Vote)) : Prop where
+  distinct : (S.map (·.1.addr)).Nodup
+  member : ∀ p ∈ S, lb.sorted[p.2.idx]? = some p.1
+  bls : ∀ p ∈ S, p.1.blsKey.isSome
+  entitled : ∀ p ∈ S, Entitled p.1
+  cred : ∀ p ∈ S, CredOK C p.1 seed step pl.index p.2.proof p.2.votes t lb.chamberStake
+  stake : lb.chamberStake ≠ 0
+
+def blsKeys (S : List (Val × Vote)) : List Nat := S.filterMap (·.1.blsKey)
+
+theorem sortitionOK_of_cred {C : Crypto} {v : Val} {mk seed role index : Nat} {proof : Option VrfProof}
+    {seats t total : Nat} (hmk : v.mainKey = some mk) (htot : total ≠ 0)
+    (h : CredOK C v seed role index proof seats t total) :
+    sortitionOK C mk seed role index proof seats t v.stake total = some true := by
+  obtain ⟨k, hh, j, hk, hp, hj, hpos, hu⟩ := h
+  have : k = mk := by rw [hmk] at hk; cases hk; rfl
+  subst this
+  unfold sortitionOK
+  simp [htot, hp, hj, hpos, hu]
+
+theorem loop_honest {C : Crypto} {cd : CD} {lb : LookBack} {step : Nat} :
+    ∀ (S : List (Val × Vote)) (st : VState),
+      HonestBallots C lb cd.seed step cd.payload cd.t S → (∀ p ∈ S, p.1.addr ∉ st.sta) → st.count < U32 →
+      ∃ sta', loop (stepBls Checks.current C cd lb.sorted lb.chamberStake step) (S.map (·.2)) st =
+        .cont ⟨sta', st.pubs ++ blsKeys S, (st.count + weight S) % U32⟩ := by
+  intro S
+  induction S with
+  | nil =>
+    intro st _ _ hc
+    exact ⟨st.sta, by simp [loop, blsKeys, weight, Nat.mod_eq_of_lt hc]⟩
+  | cons p S ih =>
+    intro st hh hfresh hc
+    have hp : p ∈ p :: S := List.mem_cons_self
+    have hmem := hh.member p hp
+    have hent := hh.entitled p hp
+    have hcred := hh.cred p hp
+    obtain ⟨bk, hbk⟩ := Option.isSome_iff_exists.1 (hh.bls p hp)
+    obtain ⟨mk, hmk⟩ : ∃ mk, p.1.mainKey = some mk := by
+      obtain ⟨k, _, _, hk, _⟩ := hcred; exact ⟨k, hk⟩
+    have hsort := sortitionOK_of_cred hmk hh.stake hcred
+    have hnot : st.sta.contains p.1.addr = false := by
+      have := hfresh p hp
+      simpa using this
+    have hstep : stepBls Checks.current C cd lb.sorted lb.chamberStake step st p.2 =
+        .cont ⟨p.1.addr :: st.sta, st.pubs ++ [bk], (st.count + p.2.votes) % U32⟩ := by
+      unfold stepBls
+      simp only [hmem, hbk, hmk]
+      have he : entitled p.1 = true := entitled_iff.2 hent
+      simp only [he, Bool.not_true, Bool.and_false, hnot]
+      simp [count1, hsort]
+    have hh' : HonestBallots C lb cd.seed step cd.payload cd.t S :=
+      ⟨(by have := hh.distinct; rw [List.map_cons, List.nodup_cons] at this; exact this.2),
+       fun q hq => hh.member q (List.mem_cons_of_mem _ hq),
+       fun q hq => hh.bls q (List.mem_cons_of_mem _ hq),
+       fun q hq => hh.entitled q (List.mem_cons_of_mem _ hq),
+       fun q hq => hh.cred q (List.mem_cons_of_mem _ hq), hh.stake⟩
+    have hfresh' : ∀ q ∈ S, q.1.addr ∉ (p.1.addr :: st.sta) := by
+      intro q hq hm
+      rcases List.mem_cons.1 hm with heq | hm'
+      · have hd : p.1.addr ∉ S.map (·.1.addr) := by
+          have := hh.distinct
+          rw [List.map_cons, List.nodup_cons] at this
+          exact this.1
+        exact hd (List.mem_map.2 ⟨q, hq, heq⟩)
+      · exact hfresh q (List.mem_cons_of_mem _ hq) hm'
+    obtain ⟨sta', hl⟩ := ih ⟨p.1.addr :: st.sta, st.pubs ++ [bk], (st.count + p.2.votes) % U32⟩ hh' hfresh' (Nat.mod_lt _ (by decide))
+    refine ⟨sta', ?_⟩
+    simp only [List.map_cons, loop, hstep, hl]
+    have hk : blsKeys (p :: S) = bk :: blsKeys S := by simp [blsKeys, hbk]
+    simp only [hk, weight_cons, List.append_assoc, List.singleton_append, Nat.mod_add_mod]
+    congr 2
+    rw [Nat.add_assoc]
+
+/-- `verifyVotes` accepts what honest voters produce, packed in any order, provided the true weight reaches the
+quorum and does not overflow the uint32 accumulator -/
+theorem verifyVotes_honest {C : Crypto} {cd : CD} {lb : LookBack} {step : Nat} {isPos : Bool}
+    {S : List (Val × Vote)} (hb : cd.enableBls = true) (hS : S ≠ [])
+    (hh : HonestBallots C lb cd.seed step cd.payload cd.t S)
+    (hq : quorum isPos cd.t ≤ weight S) (hw : weight S < U32) :
+    verifyVotes Checks.current C cd lb (S.map (·.2)) (some ((blsKeys S).map fun k => (k, cd.payload))) step isPos = .ok := by
+  obtain ⟨sta', hl⟩ := loop_honest (C := C) (cd := cd) (lb := lb) (step := step) S ⟨[], [], 0⟩ hh (by simp) (by decide)
+  unfold verifyVotes
+  simp only [hb, Bool.true_and, Option.isNone_some, Bool.false_eq_true, if_false, if_true, hl]
+  have hcount : (0 + weight S) % U32 = weight S := by simp [Nat.mod_eq_of_lt hw]
+  have hover : overThreshold ((0 + weight S) % U32) cd.t isPos = true := by
+    rw [hcount]; simpa [overThreshold] using hq
+  have hne : blsKeys S ≠ [] := by
+    cases S with
+    | nil => exact absurd rfl hS
+    | cons p S' =>
+      obtain ⟨bk, hbk⟩ := Option.isSome_iff_exists.1 (hh.bls p List.mem_cons_self)
+      simp [blsKeys, hbk]
+  simp only [hover, Bool.not_true, Bool.false_eq_true, if_false, List.nil_append, Option.getD_some]
+  have : verifyAgg Checks.current (blsKeys S) cd.payload ((blsKeys S).map fun k => (k, cd.payload)) = some true := by
+    unfold verifyAgg
+    have h1 : (blsKeys S).isEmpty = false := by simpa using hne
+    simp [h1, permB_refl]
+  simp [this]
+
+
+/-- header level: what an honest proposer, honest voters and an honest packer produce is accepted
+(rounds without a certificate) -/
+theorem verifyMain_honest {C : Crypto} {versions : Nat → Option Params} {cp : Params} {seedHdr : LbHeader}
+    {lb : LookBack} {certHdr : Option LbHeader} {certLb : LookBack} {h : Header}
+    {seed ct ri : Nat} {c : Cons} {prop : Val} {S : List (Val × Vote)}
+    (hb : cp.enableBls = true) (hseed : seedHdr.cons = some (seed, ct)) (hc : h.cons = some c)
+    (hT : c.pT = cp.pT ∧ c.vT = cp.vT ∧ c.cT = cp.cT)
+    (hprop : lb.byKey c.signer = some prop) (hE : Entitled prop)
+    (hP : ProposerOK C prop seed c cp.pT lb.chamberStake) (htot : lb.chamberStake % U64 ≠ 0)
+    (huc : h.uc = some ⟨ri, S.map (·.2), some ((blsKeys S).map fun k => (k, ⟨h.hash, c.round, ri⟩))⟩)
+    (hS : S ≠ []) (hh : HonestBallots C lb seed Gen.stepPrecommit ⟨h.hash, c.round, ri⟩ cp.vT S)
+    (hq : quorum true cp.vT ≤ weight S) (hw : weight S < U32) (hcert : isCertRound h.number = false) :
+    verifyMain Checks.current C versions cp seedHdr lb certHdr certLb h = .ok := by
+  obtain ⟨k, hh', j, hmk, hsig, hp, hj, hsub, hu, hpr⟩ := hP
+  unfold verifyMain
+  simp only [hseed, hc]
+  have h1 : (Checks.current.thresholds && !(c.pT == cp.pT && c.vT == cp.vT && c.cT == cp.cT)) = false := by
+    simp [hT.1, hT.2.1, hT.2.2]
+  have h2 : (c.signer == Signer.bad) = false := by rw [hsig]; rfl
+  simp only [h1, h2, Bool.false_eq_true, if_false, hprop]
+  rw [hsig]
+  have h3 : (Checks.current.proposerEntitled && !(entitled prop && decide (0 < c.subUsers))) = false := by
+    simp [entitled_iff.2 hE, hsub]
+  have h4 : priorityOK C k seed c.roundIndex c prop.stake lb.chamberStake = some true := by
+    unfold priorityOK
+    simp [htot, hp, hT.1, hj, hu, hpr]
+  simp only [h3, Bool.false_eq_true, if_false, h4, huc]
+  have hv := verifyVotes_honest (C := C) (cd := { enableBls := cp.enableBls, seed := seed, payload := ⟨h.hash, c.round, ri⟩, t := c.vT })
+    (lb := lb) (step := Gen.stepPrecommit) (isPos := true) (S := S) hb hS (by simpa [hT.2.1] using hh) (by simpa [hT.2.1] using hq) hw
+  simp only at hv
+  simp [hv, hcert]
+
 end YouVerif.C01
